@@ -1,3 +1,17 @@
 --------------------------- MODULE MC_OptionsImpl ---------------------------
 EXTENDS OptionsImpl, MC_Options
+
+\* Two -g targets in one run (outside the statement; reported as findings, never as verdicts):
+\* what the implementation model predicts for the settings each target generates with, next to
+\* the outcomes the abstract machine allows for each target on its own.
+Ign(v) == IF v = "" THEN Occ("ignore_initialisms", TRUE, "") ELSE Occ("ignore_initialisms", FALSE, v)
+Sty(s) == Occ("naming_style", FALSE, s)
+TargetLists == { <<>>, <<Ign("")>>, <<Ign("false")>>, <<Sty("golint")>>, <<Sty("apache")>>,
+                 <<Sty("golint"), Ign("")>>, <<Ign(""), Sty("golint")>> }
+ArgsOf(t) == [i \in 1..Len(t) |-> t[i].a]
+ASSUME \A t1, t2 \in TargetLists :
+         LET o == TwoTargets(t1, t2) IN
+         PrintT("TWOTARGETS " \o ToJson([t1 |-> ArgsOf(t1), t2 |-> ArgsOf(t2), obs1 |-> o[1], obs2 |-> o[2],
+                                          allowed1 |-> AOutcomes(Case("cli", t1)),
+                                          allowed2 |-> AOutcomes(Case("cli", t2))]))
 =============================================================================
